@@ -1,5 +1,6 @@
 import TbotVerif.Props.CtxRefine4
 import TbotVerif.Props.C14
+import TbotVerif.Props.C15Laws
 set_option linter.unusedSimpArgs false
 set_option linter.unusedVariables false
 /-! # C15 — context requests: sharing, exclusive, reset and reset_on_error act as documented
@@ -35,5 +36,22 @@ theorem spec (cs : Case) (hwf : cs.wf = true) : Spec.C15 cs (run cs) = true := b
   unfold Spec.C15
   rw [refinement cs hc]
   simp
+
+/-! ### non-vacuity: the hypotheses are satisfiable by non-trivial cases -/
+
+/-- chain lab <- board (shared) <- u-boot (exclusive) <- linux (exclusive), no faults -/
+def chain4 : Cfg := { n := 4, deps := [[], [(0, false)], [(1, true)], [(2, true)]], fi := [], fd := [] }
+
+/-- `with ctx: with request(linux): with request(board) -> ContextError (held exclusively by u-boot);
+    request(linux, reset=True)` under keep-alive with reset_on_error by default -/
+def ex1 : Case := ⟨chain4, true, true,
+  .cons (.ctx (.cons (.req 3 false false none (.cons (.try_ (.cons (.req 1 false false none .nil) .nil))
+    (.cons (.req 3 true false none .nil) .nil))) .nil)) .nil⟩
+
+example : ex1.wf = true := by decide
+example : (run ex1).length = 36 := by decide
+example : Spec.C15 ex1 (run ex1) = true := by decide
+/-- the inner request on the board fails with a `ContextError`: the exclusive latch is exercised -/
+example : Ev.caught ⟨0, .ctx⟩ ∈ run ex1 := by decide
 
 end C15
